@@ -57,7 +57,7 @@ CLAIMS = {
     technique="Coq/MathComp proof (generalised eigenproblem and svd algebra, slice and best-iterate theorems) + oracle-tape model correspondence",
     ref="DESIGN.md section 7, C05"),
  "C04": dict(
-    text="MathComp theorems: for every tangent of f(y(theta), theta) = 0 the two steps of the backward pass (solve J^T g = -G, pull g "
+    text="[complex unknowns: the conjugate version J^H g = -G, P^H g is proved too] MathComp theorems: for every tangent of f(y(theta), theta) = 0 the two steps of the backward pass (solve J^T g = -G, pull g "
          "back through theta |-> f(y*, theta)) give <G, dy> = <P^T g, dtheta> (any size, any commutative ring); the gradient is "
          "determined by (y*, theta) alone - no forward method, y0 or backward solver enters; the tensor / non-tensor separation "
          "round-trips for every pattern of length <= 10 (by computation) and rejects wrong lengths. The executable Gallina model "
@@ -80,7 +80,7 @@ CLAIMS = {
     technique="Coq/MathComp proof (symbolic differentiation correctness, symmetry of second partials) + model correspondence",
     ref="DESIGN.md section 7, C17"),
  "C02": dict(
-    text="MathComp theorems over any commutative ring, any derivation (any differentiable parametrisation; applied twice: second "
+    text="[complex case: the same identity for the sesquilinear pairing tr(G^H dX) with the adjoint system (A - E M)^H V = G, any field with an involutive conjugation] MathComp theorems over any commutative ring, any derivation (any differentiable parametrisation; applied twice: second "
          "order), any size and number of columns: the tangent of A X - M X E = B; the four outputs of the backward pass (grad_B = V, "
          "-V X^T, V (XE)^T, diag(V^T M X)) with V solving the transposed system pair with every tangent to <G, dX> (adjoint identity); "
          "inputs that do not influence X get zero; the branch without E/M is the instance M=1, E=0. The executable Gallina model of "
